@@ -83,7 +83,11 @@ def minimise(world, plan, violation, known_keys=(), max_exec=400, max_s=90.0):
         while progress and budget.ok():
             progress = False
             for i in range(len(best["steps"])):
-                for alt in shrink(copy.deepcopy(best["steps"][i])):
+                try:  # a shrinker that does not know a step kind must not cost the report: that step stays as it is
+                    alts = list(shrink(copy.deepcopy(best["steps"][i])))
+                except Exception:  # noqa: BLE001
+                    alts = []
+                for alt in alts:
                     if not budget.ok():
                         break
                     cand_steps = list(best["steps"])
